@@ -161,6 +161,8 @@ type CRLSpec struct {
 	RevokedAt time.Time
 	// EntryExts are further extensions carried by every entry.
 	EntryExts []pkix.Extension
+	// FirstEntryExts are extensions carried by the first entry only.
+	FirstEntryExts []pkix.Extension
 }
 
 // MakeCRL builds a DER CRL.
@@ -183,6 +185,9 @@ func MakeCRL(s CRLSpec) []byte {
 			e.Extensions = []pkix.Extension{{Id: asn1.ObjectIdentifier{2, 5, 29, 21}, Value: []byte{0x0a, 0x01, byte(s.Reason)}}}
 		}
 		e.Extensions = append(e.Extensions, s.EntryExts...)
+		if len(rev) == 0 {
+			e.Extensions = append(e.Extensions, s.FirstEntryExts...)
+		}
 		rev = append(rev, e)
 	}
 	num := s.Number
